@@ -413,13 +413,37 @@ def oracle_forms(ctx: Ctx, scale=1):
             ctx.fail("span-sdmx-strings", case, repr(e))
 
 
+def history_independence(ctx: Ctx, streams, first_pass):
+    """every request is a pure function of its arguments: a second evaluation of a sample of all requests, in a shuffled order
+    that interleaves frequencies and streams (after everything else has run in this process), must give the first answers.
+    This is what exposes memos keyed too coarsely (e.g. by serial or by year without the frequency) and state left behind."""
+    rng = ctx.rng.fork("history")
+    pool = [(name, i) for name, lines in streams.items() for i in range(len(lines))]
+    k = min(len(pool), ctx.n(30000, 300000))
+    for j in range(k):   # partial Fisher-Yates: the first k entries are a uniform sample in random order
+        r = rng.randint(j, len(pool) - 1)
+        pool[j], pool[r] = pool[r], pool[j]
+    bad = 0
+    for name, i in pool[:k]:
+        again = impl_eval(streams[name][i])
+        if again != first_pass[name][i]:
+            bad += 1
+            if bad <= 3:
+                ctx.fail("answer-depends-on-history", {"line": streams[name][i]} if "zzz" in streams[name][i][:4] else streams[name][i],
+                         f"first evaluation {first_pass[name][i]!r}, evaluated again later in the same process {again!r}")
+    ctx.count("history_reevaluations", k)
+    ctx.evaluations += k
+
+
 def run(ctx: Ctx):
     ctx.rule = ("every regular period and (thinned in quick) every day of the enumerated years (quick: 1890-2110 + boundary years; thorough: "
                 "1-9999) through every round trip and every ordered frequency pair x position; produced, hand-written malformed and randomly "
                 "mutated SDMX/ISO strings. distinct_nontrivial counts distinct (from, to, position, segment-or-month) conversion classes")
     streams = gen_lines(ctx)
+    first_pass = {}
     for name, lines in streams.items():
         impl = [impl_eval(l) for l in lines]
+        first_pass[name] = impl
         ctx.compare(name, lines, impl, ctx.model("C11", lines))
         ctx.evaluations += len(lines)
         ctx.count(f"lines_{name}", len(lines))
@@ -428,6 +452,7 @@ def run(ctx: Ctx):
         if name == "strings_in":
             for o in impl:
                 ctx.count("strings_in_" + (o if o.startswith("err") or o in ("no-class",) else "accepted"))
+    history_independence(ctx, streams, first_pass)
     ctx.exhaustive = False   # regular periods are enumerated completely in the thorough tier, days are thinned
     oracle(ctx)
     oracle_forms(ctx)
